@@ -8,6 +8,7 @@ from vlib.facts import kids, strip, walk, is_call, call_args, call_object, calle
 from vlib.paren import Paren, ANY, CLEAN
 from vlib.cfg import write_target
 from vlib.work import AnalysisBroken
+from vlib.exprterm import Builder, TermError, NF, Poly, normal_form, show, member_chain
 
 UNITS = ["src/occa/internal/lang/builtins/attributes/dim.cpp", "src/occa/internal/lang/operator.cpp", "src/occa/internal/lang/expr/expr.cpp"]
 D = "occa::lang::attributes::dim::"
@@ -35,7 +36,7 @@ def run(ctx):
 
     ac = prog.fn(D + "applyCodeTransformations")
     lams = [prog.funcs[n["lam"]] for n in ac.walk() if n["k"] == "LambdaExpr" and n["lam"] in prog.funcs]
-    fold = [l for l in lams if any(n["k"] == "VarDecl" and n["n"] == "index" for n in l.walk())]
+    fold = [l for l in lams if any(n["k"] == "ForStmt" for n in l.walk()) and any(is_call(n) and callee(n) == D + "callHasValidIndices" for n in l.walk())]
     if len(fold) != 1:
         raise AnalysisBroken("dim::applyCodeTransformations: the fold lambda was not found")
     f = fold[0]
@@ -46,29 +47,56 @@ def run(ctx):
     if n < 4:
         raise AnalysisBroken("dim fold: only %d operand slots analysed" % n)
 
-    # ---- R2 --------------------------------------------------------------------------
-    loops = [x for x in f.walk() if x["k"] == "ForStmt" and any(y["k"] == "VarDecl" and y["n"] == "orderIndex" for y in walk(x))]
-    if len(loops) != 1:
-        raise AnalysisBroken("dim fold loop not found")
-    lp = loops[0]
-    init, cond, inc = noid(render(kids(lp)[0], False)), noid(render(kids(lp)[1], False)), noid(render(kids(lp)[2], False))
-    ok = "(dimCount - 2)" in init and ">= 0" in cond and "--" in inc
-    R.ob("C19-R2", ok, ac.q, "fold runs from the second-last ordered index down to 0", f.site(lp), "for (i = dimCount-2; i >= 0; --i)")
-    first = [x for x in f.walk() if x["k"] == "VarDecl" and x["n"] == "index"]
-    ok = len(first) == 1 and noid(render(first[0], False)).replace(" ", "").endswith("call.args[order[(dimCount-1)]]")
-    R.ob("C19-R2", ok, ac.q, "fold starts with the last ordered index", f.site(first[0]), noid(render(first[0], False)))
-    oi = [x for x in walk(lp) if x["k"] == "VarDecl" and x["n"] == "orderIndex"]
-    ok = len(oi) == 1 and noid(render(oi[0], False)).replace(" ", "").endswith("order[i]")
-    argd = [x for x in walk(lp) if x["k"] == "VarDecl" and x["n"] == "arg"]
-    dimd = [x for x in walk(lp) if x["k"] == "VarDecl" and x["n"] == "dim"]
-    ok = ok and len(argd) == 1 and len(dimd) == 1 and "call.args[orderIndex]" in noid(render(argd[0], False)) and "dimAttr.args[orderIndex]" in noid(render(dimd[0], False))
-    R.ob("C19-R2", ok, ac.q, "index argument and dimension taken with the same ordered subscript", f.site(oi[0]) if oi else f.site(lp), "arg = call.args[order[i]], dim = dimAttr.args[order[i]]")
-    upd = [x for x in walk(lp) if x["k"] == "CXXOperatorCallExpr" and x.get("op") == "=" and noid(render(kids(x)[1], False)) == "index"]
-    ok = len(upd) == 1
-    if ok:
-        t = noid(render(kids(upd[0])[2], False))
-        ok = "+" in t and "*" in t and "arg" in t and "dim" in t and "index" in t
-    R.ob("C19-R2", ok, ac.q, "step: index = arg + dim * index", f.site(upd[0]) if upd else f.site(lp), "mixed-radix fold")
+    # ---- R2: closed form of the rewritten subscript for 1..4 dimensions (TERM) ------------------------------------------------------
+    def conts(bn):
+        r_, ch = member_chain(f, bn)
+        if ch and ch[-1].endswith("callNode::args"):
+            return "arg"
+        if ch and ch[-1].endswith("attributeToken_t::args"):
+            return "dim"
+        if bn["k"] == "DeclRefExpr" and bn.get("loc") and ("intVector" in f.type(bn) or "vector<int" in f.type(bn)):
+            return "order"
+        return None
+
+    def fb(e):
+        t = noid(render(e, False)).replace(" ", "")
+        if "exprNodeType::variable" in t:
+            return True                       # the called thing is a variable
+        if ".end()" in t and e.get("op") in ("==", "!="):
+            return e["op"] == "!="            # the variable has @dim (and @dimOrder): both lookups succeed
+        if "callHasValidIndices" in t or "getDimOrder" in t:
+            return True                       # validated call, validated order
+        return None
+    for K in (1, 2, 3, 4):
+        holder = {}
+
+        def src(e, K=K, holder=holder):
+            if e["k"] == "MemberExpr" and e.get("n", "").endswith("callNode::value"):
+                return ("s", "array")
+            if e["k"] == "MemberExpr" and e.get("n", "").endswith("attributeArg_t::expr") and kids(e):
+                return holder["b"].ev(kids(e)[0])       # the expression stored in that attribute argument
+            if e["k"] == "CXXMemberCallExpr" and callee(e).endswith("::size") and call_object(e) is not None and conts(strip(call_object(e))) == "arg":
+                return ("c", K)
+            return None
+        try:
+            holder["b"] = Builder(prog, f, {}, {}, {}, sym_sources=src, cond_fallback=fb, container_sources=conts)
+            t = holder["b"].result()
+            if t[0] != "[]":
+                raise TermError("the rewrite does not return a subscript expression: %s" % show(t))
+            got = normal_form(t[2])
+        except TermError as e:
+            raise AnalysisBroken("dim fold, %d dimension(s): not reducible to a closed form: %s" % (K, e))
+        # documented index for the ordered subscripts o_k = order[k]:  sum_k arg[o_k] * prod_{j<k} dim[o_j]
+        want = Poly.const(0)
+        for k in range(K):
+            m = Poly.sym("arg[order[%d]]" % k)
+            for j in range(k):
+                m = m * Poly.sym("dim[order[%d]]" % j)
+            want = want + m
+        ok = t[1] == ("s", "array") and got == NF(want)
+        R.ob("C19-R2", ok, ac.q, "closed form of the subscript, %d dimension(s)" % K, f.site(kids(f.d["body"])[0]) if kids(f.d["body"]) else f.relfile,
+             "x(...) -> x[%r]" % got if ok else
+             "x(...) is rewritten to %s = %r, the documented mixed-radix index is %r: some index lands on another element (not a bijection onto [0, D0*...*Dk))" % (show(t), got, want))
     chk = [c for c in f.walk() if is_call(c) and callee(c) == D + "callHasValidIndices"]
     R.ob("C19-R2", len(chk) == 1, ac.q, "argument count checked against the dimension count", f.site(chk[0]) if chk else f.relfile, "callHasValidIndices before the fold")
     hv = prog.fn(D + "callHasValidIndices")
